@@ -124,7 +124,10 @@ pub fn emit(c: &Compiled, shell: Shell) -> Result<Vec<u8>, String> {
 pub fn dfa_dot(c: &Compiled, shell: Shell) -> Result<Vec<u8>, String> {
     match guarded(|| {
         let mut out: Vec<u8> = vec![];
-        c.min.to_dot(&mut out, array_start(shell)).map(|_| out)
+        // on a copy, through a mutable binding: compiles whether the writer takes &self or &mut self
+        #[allow(unused_mut)]
+        let mut d = c.min.clone();
+        d.to_dot(&mut out, array_start(shell)).map(|_| out)
     }) {
         Ok(Ok(v)) => Ok(v),
         Ok(Err(e)) => Err(format!("to_dot error: {e}")),
@@ -135,7 +138,9 @@ pub fn dfa_dot(c: &Compiled, shell: Shell) -> Result<Vec<u8>, String> {
 pub fn regex_dot(c: &Compiled) -> Result<Vec<u8>, String> {
     match guarded(|| {
         let mut out: Vec<u8> = vec![];
-        c.regex.to_dot(&mut out, &c.pool).map(|_| out)
+        #[allow(unused_mut)]
+        let mut r = c.regex.clone();
+        r.to_dot(&mut out, &c.pool).map(|_| out)
     }) {
         Ok(Ok(v)) => Ok(v),
         Ok(Err(e)) => Err(format!("to_dot error: {e}")),
